@@ -118,6 +118,11 @@ static void lane_ops(const Ops<T>& in, long it)
     CV("xs_bitwise_or", 2, xs::bitwise_or(va, vb), MM::s(MM::u(x) | MM::u(y)));
     CV("xs_bitwise_xor", 2, xs::bitwise_xor(va, vb), MM::s(MM::u(x) ^ MM::u(y)));
     CV("xs_bitwise_not", 1, xs::bitwise_not(va), MM::s((typename MM::U) ~MM::u(x)));
+    CV("and_assign", 2, (va &= vb), MM::s(MM::u(x) & MM::u(y)));
+    CV("or_assign", 2, (va |= vb), MM::s(MM::u(x) | MM::u(y)));
+    CV("xor_assign", 2, (va ^= vb), MM::s(MM::u(x) ^ MM::u(y)));
+    CV("shl_assign_lanes", 3, (va <<= vc), MM::shl(x, (int)z));
+    CV("shr_assign_lanes", 3, (va >>= vc), MM::shr(x, (int)z));
     CV("shl_lanes", 3, va << vc, MM::shl(x, (int)z));
     CV("shr_lanes", 3, va >> vc, MM::shr(x, (int)z));
     CV("xs_lshift_lanes", 3, xs::bitwise_lshift(va, vc), MM::shl(x, (int)z));
@@ -148,6 +153,8 @@ static void count_ops(const Ops<T>& in, int k, long it)
         // the count travels in lane 0 of vc only to reach the lambda; the kernel receives a scalar int
         CV("shl", 3, va << (int)vc.get(0), MM::shl(x, (int)z));
         CV("shr", 3, va >> (int)vc.get(0), MM::shr(x, (int)z));
+        CV("shl_assign", 3, (va <<= (int)vc.get(0)), MM::shl(x, (int)z));
+        CV("shr_assign", 3, (va >>= (int)vc.get(0)), MM::shr(x, (int)z));
         CV("xs_lshift", 3, xs::bitwise_lshift(va, (int)vc.get(0)), MM::shl(x, (int)z));
         CV("xs_rshift", 3, xs::bitwise_rshift(va, (int)vc.get(0)), MM::shr(x, (int)z));
         CVR("rotl", 3, xs::rotl(va, (int)vc.get(0)), MM::rotl(x, (int)z));
